@@ -63,7 +63,14 @@ pub fn judge(s: &str) -> Result<&'static str, (String, String)> {
             if p.name != s {
                 return Err(("parsed name is not the input verbatim".into(), format!("{s:?} -> {:?}", p.name)));
             }
-            let ok = p.handshake.pattern.as_str() == w.pattern && mods(&p) == w.modifiers && dh_name(&p) == w.dh && format!("{:?}", p.cipher) == w.cipher && hash_name(&p) == w.hash && kem_name(&p) == w.kem;
+            // the modifiers are compared as a collection: the property says which components the parsed value
+            // names, not in which order its list holds them (the order has no meaning in snow: psk tokens go to
+            // fixed places, hfs tokens follow e / ee). What the handshake hashes is `name`, compared verbatim above.
+            let canon = |mut v: Vec<Modifier>| {
+                v.sort_by_key(|m| format!("{m:?}"));
+                v
+            };
+            let ok = p.handshake.pattern.as_str() == w.pattern && canon(mods(&p)) == canon(w.modifiers.clone()) && dh_name(&p) == w.dh && format!("{:?}", p.cipher) == w.cipher && hash_name(&p) == w.hash && kem_name(&p) == w.kem;
             if ok {
                 Ok("accepted")
             } else {
